@@ -74,6 +74,10 @@ impl Rng {
         &xs[self.below(xs.len())]
     }
 
+    pub fn word(&mut self, xs: &[&'static str]) -> &'static str {
+        xs[self.below(xs.len())]
+    }
+
     /// Weighted choice: returns an index into `weights` (sum must be > 0).
     pub fn weighted(&mut self, weights: &[u32]) -> usize {
         let total: u64 = weights.iter().map(|&w| w as u64).sum();
